@@ -212,6 +212,8 @@ def run_case(case):
                 k = rng.randint(1, min(n, len(devs)))
                 plans.append(("devices", rng.sample(devs, k)))
         plans.append(("stripes", n))
+        # parity files cut in the middle of their last blocks (the tail of the last stripes is often zero)
+        plans.append(("paritycut", rng.sample(range(a.nlev), rng.randint(1, a.nlev))))
         if rng.random() < 0.3:
             plans.append(("devices", [("parity", l) for l in range(n)]))
         first = True
@@ -223,6 +225,20 @@ def run_case(case):
             prng = random.Random("c01-%d-%d-%d" % (seed, idx, pi))
             if ptype == "devices":
                 desc, changed = apply_device_plan(a, fs, prng, state, parg)
+            elif ptype == "paritycut":
+                desc = []
+                changed = False
+                for l in parg:
+                    used = [p for p in a.ppaths(l) if os.path.exists(p) and os.path.getsize(p) > c.blocksize]
+                    if not used:
+                        continue
+                    p = used[-1]
+                    sz = os.path.getsize(p)
+                    cut = sz - prng.randint(0, min(3, sz // c.blocksize - 1)) * c.blocksize - prng.randint(1, c.blocksize - 1)
+                    with open(p, "r+b") as fh:
+                        fh.truncate(cut)
+                    desc.append(("parity", l, "cut-mid-block", cut))
+                    changed = True
             else:
                 desc, nd_, coll = apply_stripe_plan(a, c, prng, parg)
                 changed = nd_ > 0
